@@ -180,6 +180,50 @@ func zzRun(c zzCfg, ops []zzOp, keyDomain int) (props string, detail string) {
 				return "C17", fmt.Sprintf("%s: backward scan %v is not the reverse of the forward scan %v", at, bwd, fwd)
 			}
 		}
+		// range scans (C18: "search positions the cursor for exact range scans"): Range(from, to) delivers exactly the
+		// items with from <= key <= to in scan order, RangeDesc(hi, lo) the same items backwards; bounds that are not
+		// keys of the store (misses, below the first key, past the last key) included
+		for from := -1; from <= keyDomain; from++ {
+			for _, width := range []int{0, 1, keyDomain} {
+				to := from + width
+				var want []zzPair
+				for _, p := range fwd {
+					if p.k >= from && p.k <= to {
+						want = append(want, p)
+					}
+				}
+				var got []zzPair
+				for k, v := range b3.Range(from, to) {
+					got = append(got, zzPair{k, v})
+					if len(got) > len(fwd)+2 {
+						break
+					}
+				}
+				if len(got) != len(want) {
+					return "C18", fmt.Sprintf("%s: Range(%d, %d) delivers %v, the store holds %v in that range (scan %v)", at, from, to, got, want, fwd)
+				}
+				for i := range got {
+					if got[i] != want[i] {
+						return "C18", fmt.Sprintf("%s: Range(%d, %d) delivers %v, the store holds %v in that range", at, from, to, got, want)
+					}
+				}
+				var gotD []zzPair
+				for k, v := range b3.RangeDesc(to, from) {
+					gotD = append(gotD, zzPair{k, v})
+					if len(gotD) > len(fwd)+2 {
+						break
+					}
+				}
+				if len(gotD) != len(want) {
+					return "C18", fmt.Sprintf("%s: RangeDesc(%d, %d) delivers %v, the store holds %v in that range (scan %v)", at, to, from, gotD, want, fwd)
+				}
+				for i := range gotD {
+					if gotD[i] != want[len(want)-1-i] {
+						return "C18", fmt.Sprintf("%s: RangeDesc(%d, %d) delivers %v, the store holds %v in that range", at, to, from, gotD, want)
+					}
+				}
+			}
+		}
 		// searches
 		for k := 0; k < keyDomain; k++ {
 			first := -1
